@@ -11,7 +11,7 @@ use affinitree::pwl::node::NodeState;
 use ndarray::{Array1, Array2};
 use serde::{Deserialize, Serialize};
 
-use crate::common::{guarded, panic_site, Violation};
+use crate::common::{event, events_digest, events_reset, guarded, panic_site, Violation};
 use crate::exact::{width, Class, Row, Q};
 use crate::gen::{self, Knobs, SlotInfo};
 use crate::lit::*;
@@ -109,6 +109,9 @@ pub struct PwlStats {
     pub elim_counter: BTreeMap<String, u64>,
     pub recovery_checked: u64,
     pub recovery_full: u64,
+    /// wrapping sum of the per-run event-log digests: equal iff every run logged the same events
+    pub event_digest_sum: u64,
+    pub events_logged: u64,
     #[serde(skip)]
     pub state_hashes: BTreeSet<u64>,
     #[serde(skip)]
@@ -143,6 +146,8 @@ impl PwlStats {
             faults_fired_changed_answer, fault_contexts, probes, discarded_runs, elim_counter
         );
         self.max_nodes = self.max_nodes.max(o.max_nodes);
+        self.event_digest_sum = self.event_digest_sum.wrapping_add(o.event_digest_sum);
+        self.events_logged += o.events_logged;
         self.state_hashes.extend(o.state_hashes);
         self.nontrivial_hashes.extend(o.nontrivial_hashes);
     }
@@ -354,6 +359,15 @@ impl Exec {
         let recs = lpseam::take_records(&self.seam);
         self.stats.lp_calls += recs.len() as u64;
         for r in &recs {
+            event(&format!(
+                "lp #{} rows={} real={:?} returned={:?} action={:?} witness={:?}",
+                r.index,
+                r.bias.len(),
+                r.real,
+                r.returned,
+                r.action,
+                r.returned_witness.as_ref().map(|w| w.iter().map(|v| v.to_bits()).collect::<Vec<u64>>())
+            ));
             if let Some(a) = &r.action {
                 if self.mode == Mode::Legal {
                     bump(&mut self.stats.lp_answers_replaced_legal, a, 1);
@@ -848,6 +862,15 @@ impl Exec {
         if !out.stop && self.check {
             self.mirror_probe(&site, &mut out);
         }
+        event(&format!(
+            "step {} {} -> states {:?} violations {:?} stop={} invalid={}",
+            self.step_no,
+            site,
+            self.pool.iter().map(oracle::state_hash).collect::<Vec<u64>>(),
+            out.violations.iter().map(|v| v.key()).collect::<Vec<String>>(),
+            out.stop,
+            out.invalid
+        ));
         self.step_no += 1;
         out
     }
@@ -1078,6 +1101,12 @@ fn arm_faults(ex: &mut Exec, sc: &Scenario) {
 
 /// One seeded run for C03..C06: knobs, pool, mode and every operation derive from `run_seed`.
 pub fn seeded_history_run(focus: &str, run_seed: u64) -> RunResult {
+    seeded_history_run_traced(focus, run_seed, false)
+}
+
+pub fn seeded_history_run_traced(focus: &str, run_seed: u64, print: bool) -> RunResult {
+    events_reset(print);
+    event(&format!("run_seed {run_seed} focus {focus}"));
     let mut rng = Prng::new(run_seed);
     let knobs = gen::gen_knobs(&mut rng, focus);
     let mode = gen::gen_mode(&mut rng);
@@ -1127,6 +1156,9 @@ pub fn seeded_history_run(focus: &str, run_seed: u64) -> RunResult {
     lpseam::uninstall();
     finalize_nontrivial(&mut ex, &sc);
     ex.stats.runs = 1;
+    let (d, n) = events_digest();
+    ex.stats.event_digest_sum = d;
+    ex.stats.events_logged = n;
     RunResult { scenario: sc, violations, stats: ex.stats, invalid: false, steps_done }
 }
 
@@ -1209,6 +1241,12 @@ fn run_suffix(prefix_pool: &[AffTree<2>], prefix_models: &[ModelTree], sc: &Scen
 /// One C11 scenario: seeded pool + fault-free prefix, a pruning suffix, then every single-fault
 /// plan (position x kind), optionally every pair of positions, plus seeded multi-fault plans.
 pub fn seeded_fault_scenario(run_seed: u64, thorough: bool) -> FaultScenarioResult {
+    seeded_fault_scenario_traced(run_seed, thorough, false)
+}
+
+pub fn seeded_fault_scenario_traced(run_seed: u64, thorough: bool, print: bool) -> FaultScenarioResult {
+    events_reset(print);
+    event(&format!("run_seed {run_seed} fault scenario thorough={thorough}"));
     let mut rng = Prng::new(run_seed);
     let mut knobs = gen::gen_knobs(&mut rng, "C11");
     knobs.node_cap = knobs.node_cap.min(150);
@@ -1307,6 +1345,7 @@ pub fn seeded_fault_scenario(run_seed: u64, thorough: bool) -> FaultScenarioResu
     let mut try_plan = |plan: FaultPlan, stats: &mut PwlStats, result: &mut FaultScenarioResult| {
         let mut s = sc.clone();
         s.fault_plan = plan;
+        event(&format!("plan {:?}", s.fault_plan.faults.iter().map(|(k, f)| format!("{k}:{}", f.label())).collect::<Vec<_>>()));
         let (v, _calls, pool) = run_suffix(&prefix_pool, &prefix_models, &s, stats);
         result.executions += 1;
         if !v.is_empty() {
@@ -1348,6 +1387,9 @@ pub fn seeded_fault_scenario(run_seed: u64, thorough: bool) -> FaultScenarioResu
         result.sampled_plans += 1;
     }
     stats.runs = 1;
+    let (d, n) = events_digest();
+    stats.event_digest_sum = d;
+    stats.events_logged = n;
     result.base = sc;
     result.stats = stats;
     result
